@@ -1,6 +1,7 @@
 package c06
 
 import (
+	"deps.dev/util/semver"
 	"fmt"
 	"math/rand"
 	"strings"
@@ -112,6 +113,17 @@ func GenerateStratum(rng *rand.Rand, stratum string) *uni.Universe {
 			}
 			nv = len(vers[p])
 		}
+		if rng.Intn(8) == 0 {
+			// A version string that is not SemVer, sorting as a string among
+			// the valid ones (old registry entries look like this). It can
+			// satisfy no range; it must not disturb the order of the others.
+			if j := uni.Pick(rng, "1.5.0.1", "1.10", "2.0.0.0", "0.9.1.2", "1.0.0.0-rc"); !seen[j] {
+				seen[j] = true
+				vers[p] = append(vers[p], j)
+				rng.Shuffle(len(vers[p]), func(a, b int) { vers[p][a], vers[p][b] = vers[p][b], vers[p][a] })
+				nv = len(vers[p])
+			}
+		}
 		lat := -1
 		if rng.Intn(3) == 0 {
 			lat = rng.Intn(nv)
@@ -120,7 +132,8 @@ func GenerateStratum(rng *rand.Rand, stratum string) *uni.Universe {
 		for i, s := range vers[p] {
 			v := uni.Version{Name: p, Version: s, Blocked: rng.Intn(6) == 0}
 			if i == lat {
-				v.Tags = "latest"
+				// Mostly alone, sometimes inside a list of other dist-tags.
+				v.Tags = uni.Pick(rng, "latest", "latest", "latest", "current,latest,lts", "latest,lts", "stable,latest")
 			}
 			if rng.Intn(10) == 0 {
 				if v.Tags != "" {
@@ -143,6 +156,12 @@ func GenerateStratum(rng *rand.Rand, stratum string) *uni.Universe {
 			}
 			used[q] = true
 			tv := vers[q][rng.Intn(len(vers[q]))]
+			for tries := 0; tries < 8 && !isSemVer(tv); tries++ {
+				tv = vers[q][rng.Intn(len(vers[q]))] // ranges are built around SemVer versions
+			}
+			if !isSemVer(tv) {
+				continue
+			}
 			rq := uni.Req{Name: q, Req: rangeFor(rng, tv, latestOf[q])}
 			switch rng.Intn(12) {
 			case 0:
@@ -214,7 +233,7 @@ func addBundles(rng *rand.Rand, u *uni.Universe, pkgs []string, vers map[string]
 			usedB[orig] = true
 			// Bundled version: usually one that exists in the registry, sometimes not.
 			bv := vers[orig][rng.Intn(len(vers[orig]))]
-			if rng.Intn(5) == 0 {
+			if rng.Intn(5) == 0 || !isSemVer(bv) {
 				bv = "9.9.9"
 			}
 			mangled := prefix + ">" + orig
@@ -231,4 +250,9 @@ func addBundles(rng *rand.Rand, u *uni.Universe, pkgs []string, vers map[string]
 			u.Versions[vi].Reqs = append(u.Versions[vi].Reqs, uni.Req{Name: mangled, Req: bv})
 		}
 	}
+}
+
+func isSemVer(s string) bool {
+	_, err := semver.NPM.Parse(s)
+	return err == nil
 }
